@@ -16,6 +16,8 @@ EXPR_PLAIN = ["0", "1", "10", "-1", "1.5", "'abc'", "'it''s'", "''", "'a b'", "C
 EXPR_ODD = ["((1))", "( 1 )", " 7 ", "((1) + (2))", "( 'a' )", "((1 + 2))"]
 
 FK_ACTIONS = [None, None, None, "CASCADE", "SET NULL", "RESTRICT", "NO ACTION"]
+# deferrable x initially combinations SQLite accepts (INITIALLY needs [NOT] DEFERRABLE) and reflects
+FK_DEFER = [(None, None)] * 6 + [(True, None), (True, "DEFERRED"), (True, "IMMEDIATE"), (False, None), (False, "DEFERRED"), (False, "IMMEDIATE")]
 
 
 def gen_type(rng, odd=False):
@@ -100,8 +102,9 @@ def gen_fk(rng, table, targets, used_names):
     if any((tuple(f["cols"]), f["reftable"], tuple(f["refcols"])) == sig for f in table["fks"]):
         return None
     nm = _fresh(rng, [], used_names, "fk_%s_%s_" % (table["name"], ref["name"]))
+    d, i = rng.choice(FK_DEFER)
     return {"name": nm, "cols": cols, "reftable": ref["name"], "refcols": refcols,
-            "ondelete": rng.choice(FK_ACTIONS), "onupdate": rng.choice(FK_ACTIONS)}
+            "ondelete": rng.choice(FK_ACTIONS), "onupdate": rng.choice(FK_ACTIONS), "deferrable": d, "initially": i}
 
 
 def all_names(schema):
@@ -293,13 +296,17 @@ def candidate_mutations(rng, schema, odd=False):
             else:
                 # same columns, another ON DELETE / ON UPDATE action: the key is *replaced* (a second key on the same
                 # columns would leave the property's class); not a catalogue mutation of C07, used for C06 pairs only
-                k = rng.choice(["ondelete", "onupdate"])
-                nv = rng.choice([a for a in ("CASCADE", "SET NULL", "RESTRICT") if a != f0.get(k)])
+                if rng.random() < 0.5:
+                    k = rng.choice(["ondelete", "onupdate"])
+                    upd = {k: rng.choice([a for a in ("CASCADE", "SET NULL", "RESTRICT") if a != f0.get(k)])}
+                else:
+                    d, i = rng.choice([x for x in FK_DEFER if x != (f0.get("deferrable"), f0.get("initially"))])
+                    upd = {"deferrable": d, "initially": i}
 
-                def chopt(s, k=k, nv=nv, nm=f0["name"]):
-                    next(i for i in tbl(s, tn)["fks"] if i["name"] == nm)[k] = nv
+                def chopt(s, upd=upd, nm=f0["name"]):
+                    next(i for i in tbl(s, tn)["fks"] if i["name"] == nm).update(upd)
 
-                out.append(({"m": "changeFKOptions", "t": tn, "n": f0["name"], k: nv}, mutated(chopt)))
+                out.append(({"m": "changeFKOptions", "t": tn, "n": f0["name"], **upd}, mutated(chopt)))
                 v = None
             sig = lambda x: (tuple(x["cols"]), x["reftable"], tuple(x["refcols"]))
             if v is not None and all(sig(v) != sig(x) for x in t0["fks"]):
